@@ -9,7 +9,7 @@ from vlib import log, Inconclusive, VERIF, SPEC, HARNESS, OUTROOT
 
 # clause prefixes that decide each property in the core trace specification
 CORE = {
-    'C01': dict(prefixes=['C01_', 'C06_'],   # 'whatever the physical segmentation happens to be'
+    'C01': dict(prefixes=['C01_', 'C06_', 'C05_returned_before_applied', 'C05_ReturnedApplied'],   # 'whatever the physical segmentation happens to be'
                 mc_q=[('MC_c01_q', 300)], mc_t=[('MC_c01_t', 1500)],
                 fam_q=[('core', 200), ('merge', 80), ('dup', 4)], fam_t=[('core', 4000), ('merge', 1500), ('memmerge', 500), ('dup', 16)]),
     'C02': dict(prefixes=['C02_'], mc_q=[('MC_durable_q', 300)], mc_t=[('MC_durable', 1500)],
@@ -27,9 +27,9 @@ CORE = {
                 fam_q=[('merge', 200), ('memmerge', 64)], fam_t=[('merge', 4000), ('memmerge', 1000)]),
     # C11: '... removal never disturbs an open Reader'
     'C11': dict(prefixes=['C11_', 'C04_reader_changed', 'C04_NoUseAfterClose'], mc_q=[('MC_files_q', 300)], mc_t=[('MC_files_t', 1500)],
-                fam_q=[('files', 240), ('filefaults', 96)], fam_t=[('files', 4000), ('filefaults', 1000)]),
+                fam_q=[('files', 240), ('filefaults', 96), ('memfaults', 64)], fam_t=[('files', 4000), ('filefaults', 1000), ('memfaults', 600)]),
     'C14': dict(prefixes=['C14_', 'C02_', 'C03_', 'C01_RootIsAbstract', 'C04_'], mc_q=[('MC_faults_q', 300)], mc_t=[('MC_faults_t', 1500)],
-                fam_q=[('faults', 160), ('mergefaults', 96), ('persfaults', 96)], fam_t=[('faults', 3000), ('mergefaults', 800), ('persfaults', 600)]),
+                fam_q=[('faults', 160), ('mergefaults', 96), ('persfaults', 96), ('memfaults', 64)], fam_t=[('faults', 3000), ('mergefaults', 800), ('persfaults', 600), ('memfaults', 600)]),
     # C15 also counts handle clauses: reference counts corrupted by a race show as handles closed twice / leaked
     'C15': dict(prefixes=['C15_', 'C04_reader_changed', 'C11_handle_closed_twice', 'C11_HandlesClosedOnce', 'C11_handle_leaked', 'C11_lock_not_released'], mc_q=[('MC_close_q', 300)], mc_t=[('MC_close_t', 1500), ('MC_live', 1500)],
                 fam_q=[('close', 200), ('free', 96)], fam_t=[('close', 4000), ('free', 2000)]),
@@ -109,8 +109,11 @@ def core_check(prop, tier, seed, sd, t0):
                     # which goroutines were busy (not blocked) inside the code under test?
                     busy = [g.split('\n')[0] + ' ' + ' <- '.join(re.findall(r'github.com/blugelabs/bluge/index\.\(?\*?\w*\)?\.?(\w+)', g)[:4])
                             for g in o.split('\n\n') if re.match(r'goroutine \d+ \[(running|runnable)', g) and 'github.com/blugelabs/bluge/index.' in g]
-                    tail = 'LIVELOCK busy goroutines of the code under test: %s\n%s' % (busy[:6], tail)
-                    livelocks.append((fam, shard, busy))
+                    # ... or blocked on a mutex for all that time (a lock-order deadlock: synctest only counts channel / WaitGroup / Cond waits as durable)
+                    locked = [g.split('\n')[0] + ' ' + ' <- '.join(re.findall(r'github.com/blugelabs/bluge/index\.\(?\*?\w*\)?\.?(\w+)', g)[:4])
+                              for g in o.split('\n\n') if re.match(r'goroutine \d+ \[sync\.(RW)?Mutex\.', g) and 'github.com/blugelabs/bluge/index.' in g]
+                    tail = 'LIVELOCK busy goroutines of the code under test: %s; blocked on a mutex: %s\n%s' % (busy[:6], locked[:6], tail)
+                    livelocks.append((fam, shard, busy + locked))
                 driver_deaths.append((fam, shard, rc, tail))
         runs = vlib.load_runs(out)
         # (3) TLC decides every recorded execution
@@ -174,7 +177,7 @@ def core_check(prop, tier, seed, sd, t0):
         if drc == 77 and tail.startswith('LIVELOCK') and any(b for _, _, b in livelocks) and prop in ('C14', 'C15'):
             # goroutines of the writer spin (never durably blocked, so synctest cannot call it a deadlock): it does not terminate
             log('VIOLATION property=%s replay=%s' % (prop, d))
-            log('  livelock: no event for 90 s of real time inside one execution while goroutines of the writer stay busy: %s (family %s shard %d)'
+            log('  livelock / lock deadlock: no event for 90 s of real time inside one execution while goroutines of the writer stay busy or wait for a mutex: %s (family %s shard %d)'
                 % (livelocks[0][2][:3], fam, shard))
             rc = 1
         elif in_code and not harness_bug and prop in ('C03', 'C04', 'C14', 'C15'):
